@@ -703,3 +703,54 @@ class ReindexLike(Contract):
 
     def canaries(self, S, case, env, result):
         yield "result-is-empty", S.shape(result.values)[0] == 0
+
+
+class ReindexFillPrecision(Contract):
+    """BOUNDED STAND-IN ONLY (never counted as proved).  reindex_axis / reindex_like on INTEGER data beyond 2**24 with a missing
+    label and a fill value given as a NARROW NumPy float (np.float32 / np.float16 NaN or number): the slices at labels that
+    exist come back EXACTLY (the widening must be wide enough for the data, whatever the type of the fill), the missing
+    ones hold the fill.  Float precision does not exist in the symbolic model.  [C07]"""
+    target = "dimarray.core.align:reindex_axis"
+    props = ("C07",)
+    native_only = True
+
+    def cases(self, tier):
+        for fill in ("float32-nan", "float32-number", "float16-nan", "float64-nan"):
+            for via in ("reindex_axis", "reindex_like"):
+                yield {"name": "%s-%s" % (fill, via), "fill": fill, "via": via}
+        # UNSIGNED integer data is integer data: promoted to float when something is filled (not to object)
+        for via in ("reindex_axis", "reindex_like"):
+            yield {"name": "uint8-data-float64-nan-%s" % via, "fill": "float64-nan", "via": via, "uint": True}
+
+    def setup(self, S, case):
+        L = S.array1d("lab", "f")
+        assume_order(S, L, "unique")
+        S.assume(S.n(L) >= 1, "non-empty")
+        return {"L": L, "q": S.array1d("q", "I")}
+
+    def call(self, fn, env):
+        import numpy as np
+        S, case = env["S"], env["case"]
+        L = np.asarray(env["L"], dtype=float)
+        n = len(L)
+        data = (np.arange(n * 2, dtype=np.int64).reshape(n, 2) * 2 + 2 ** 25 + 1)
+        if case.get("uint"):
+            data = (np.arange(n * 2).reshape(n, 2) * 3 + 1).astype(np.uint8)
+        a = S.da.DimArray(data.copy(), axes=[("x", L.copy()), ("y", ["u", "v"])])
+        q = [int(t) % n for t in np.asarray(env["q"])]
+        new = np.concatenate([L[q], [L.max() + 7.0]])            # some existing labels (any order, repeats) and one that is missing
+        fill = {"float32-nan": np.float32("nan"), "float32-number": np.float32(-9999.0), "float16-nan": np.float16("nan"), "float64-nan": np.nan}[case["fill"]]
+        env.update({"a": a, "data": data, "q": q, "fill": fill})
+        if case["via"] == "reindex_axis":
+            return a.reindex_axis(new, axis="x", fill_value=fill)
+        return a.reindex_like(S.da.Axes([S.da.Axis(new, "x")]), fill_value=fill)
+
+    def post(self, S, case, env, result):
+        import numpy as np
+        q, data, fill = env["q"], env["data"], env["fill"]
+        got = np.asarray(result.values)
+        yield "present-labels-keep-their-slice-exactly", got.shape == (len(q) + 1, 2) and all(int(got[i, j]) == int(data[p, j]) for i, p in enumerate(q) for j in range(2))
+        last = got[-1].astype(float)
+        yield "missing-label-holds-the-fill", bool(np.all(np.isnan(last))) if np.isnan(float(fill)) else bool(np.all(last == float(fill)))
+        yield "operand-untouched", bool(np.all(env["a"].values == data)) and env["a"].values.dtype == data.dtype
+        yield "integer-data-promoted-to-float-not-to-object", got.dtype.kind == "f"
